@@ -1127,7 +1127,9 @@ METHODS = ['complete', 'complete_fuzzy', 'infer', 'goto', 'goto_follow', 'help',
            'get_signatures', 'get_context', 'get_names', 'get_syntax_errors', 'search', 'complete_search', 'rename', 'inline',
            'extract_variable', 'extract_function', 'project_search', 'project_complete_search']
 PROJECT_OPTIONS = ['default', 'explicit', 'sys_path', 'sys_path_plus_env', 'added', 'smart_off', 'smart_off_added',
-                   'sys_path_smart_off', 'explicit_cwd_inside', 'default_cwd_inside']
+                   'sys_path_smart_off', 'explicit_cwd_inside', 'default_cwd_inside', 'env_sibling']
+# env_sibling: an explicit environment whose own sys.path has a directory whose NAME is a string prefix of the
+# project directory (/T/t01 vs /T/t012): only exact membership in the base path may let a directory through
 
 
 def gen_buffer(rng, path):
@@ -1341,6 +1343,13 @@ def _make_script(jedi, root, buf, unsafe=False):
         project = jedi.Project(root, smart_sys_path=False, added_sys_path=[root, os.path.join(root, 'pkg')], **kw)
     elif opt == 'sys_path_smart_off':
         project = jedi.Project(root, smart_sys_path=False, sys_path=[root, os.path.join(root, 'lib')], **kw)
+    elif opt == 'env_sibling':
+        project = jedi.Project(root, **kw)
+        sibling = root[:-1]
+        env = dict(os.environ)
+        env['PYTHONPATH'] = os.pathsep.join([common.REPO, sibling])
+        environment = jedi.create_environment(REAL_PY, safe=False, env_vars=env)
+        return jedi.Script(code, path=path, project=project, environment=environment), project
     else:
         raise ValueError(opt)
     return jedi.Script(code, path=path, project=project), project
@@ -1544,8 +1553,9 @@ def _sentinel_task(case, unsafe=False):
                             out['spawns'] += 1
                             args, cwd, envv = e[1], e[2], e[3]
                             pp = (envv if envv is not None else os.environ).get('PYTHONPATH', '')
+                            declared = root[:-1] if buf['option'] == 'env_sibling' else None
                             bad = _under(args[0], tmp_root) or (cwd and _under(cwd, tmp_root)) or \
-                                any(p and _under(p, tmp_root) for p in pp.split(os.pathsep)) or \
+                                any(p and p != declared and _under(p, tmp_root) for p in pp.split(os.pathsep)) or \
                                 not _under(args[1], common.REPO)
                             if bad:
                                 finding('interpreter-from-project', args=[a.replace(root, '$R') for a in args[:2]], where=where)
